@@ -185,19 +185,38 @@ func c03Spaces(c *fw.Ctx) {
 	if c.Thorough {
 		maxLabels = 10
 	}
-	c.Space("limits", fmt.Sprintf("all label-length sequences over %v with ≤ %d labels and wire length 248..262, plus all-1-octet-label names of 120..130 labels; each in 4 spellings (plain, escaped dot / \\DDD / backslash in the last label); non-trivial: within limits", lens, maxLabels), true,
+	c.Space("limits", fmt.Sprintf("all label-length sequences over %v with ≤ %d labels and wire length 248..262, plus all-1-octet-label names of 120..130 labels; each in 13 spellings (plain; escaped dot / \\DDD / backslash opening the first, the middle, the last or every label); non-trivial: within limits", lens, maxLabels), true,
 		func(emit func(func(*fw.R))) {
 			var seq []int
 			var rec func(sum int)
 			one := func(seq []int) {
 				seq = append([]int(nil), seq...)
 				emit(func(r *fw.R) {
-					for variant := 0; variant < 4; variant++ {
+					// variant 0: plain; otherwise escape spelling (1..3) × which labels carry it (first, middle, last, all):
+					// an escape *before* a label at the limit is what a length computation with a running
+					// escape offset gets wrong
+					for variant := 0; variant < 13; variant++ {
+						spelling, where := 0, 0
+						if variant > 0 {
+							spelling, where = (variant-1)%3+1, (variant-1)/3
+						}
 						var sb strings.Builder
 						for i, n := range seq {
-							if i == len(seq)-1 && variant > 0 {
+							esc := false
+							switch {
+							case variant == 0:
+							case where == 0:
+								esc = i == 0
+							case where == 1:
+								esc = i == len(seq)/2
+							case where == 2:
+								esc = i == len(seq)-1
+							default:
+								esc = true
+							}
+							if esc {
 								// n wire octets, the first one spelled with an escape
-								switch variant {
+								switch spelling {
 								case 1:
 									sb.WriteString(`\.`)
 								case 2:
